@@ -4,26 +4,54 @@ import VaxisModel.Model.Conc
 namespace VaxisModel.Lemmas.ConcShutdown
 open VaxisModel.Model.Conc
 
-/-- In a stuck state no internal label is enabled. -/
-theorem stuck_internal (s : SSys) (h : s.stuck = true) (l : SLabel) (hl : l.internal = true) : snext s l = none := by
-  simp only [SSys.stuck, Bool.and_eq_true, Option.isNone_iff_eq_none, List.all_eq_true, List.mem_range] at h
-  obtain ⟨⟨⟨⟨⟨hp, hr⟩, _⟩, hs⟩, ht⟩, hc⟩ := h
-  cases l <;> simp [SLabel.internal] at hl
-  · exact ht
-  · exact hp
-  · exact hr
-  · exact hs
+theorem mem_schedActs (a : IAct) (h : a.sched = true) : a ∈ schedActs := by
+  cases a <;> simp [schedActs, IAct.sched] at h ⊢
+
+/-- In a state of rest no label a scheduler may pick is enabled. -/
+theorem quiescent_sched (s : SSys) (h : s.quiescent = true) (l : SLabel) (hl : l.sched = true) : snext s l = none := by
+  simp only [SSys.quiescent, List.all_eq_true, Option.isNone_iff_eq_none] at h
+  cases l <;> simp [SLabel.sched] at hl
+  · exact h _ (by simp [SSys.schedLabels])
+  · exact h _ (by simp [SSys.schedLabels])
+  · rename_i a
+    exact h _ (by simp only [SSys.schedLabels, List.mem_append, List.mem_map]; exact Or.inl (Or.inl (Or.inr ⟨a, mem_schedActs a hl, rfl⟩)))
+  · rename_i j a
+    by_cases hj : j < s.olds.length
+    · refine h _ ?_
+      simp only [SSys.schedLabels, List.mem_append, List.mem_flatMap, List.mem_range, List.mem_map]
+      exact Or.inr ⟨j, hj, a, mem_schedActs a hl, rfl⟩
+    · have : s.olds[j]? = none := by simp; omega
+      simp [snext, this]
+  · exact h _ (by simp [SSys.schedLabels])
   · rename_i j
     by_cases hj : j < s.callers.length
-    · exact hc j hj
+    · refine h _ ?_
+      simp only [SSys.schedLabels, List.mem_append, List.mem_flatMap, List.mem_range]
+      exact Or.inl (Or.inr ⟨j, hj, by simp⟩)
+    · have : s.callers[j]? = none := by simp; omega
+      simp [snext, this]
+  · rename_i j
+    by_cases hj : j < s.callers.length
+    · refine h _ ?_
+      simp only [SSys.schedLabels, List.mem_append, List.mem_flatMap, List.mem_range]
+      exact Or.inl (Or.inr ⟨j, hj, by simp⟩)
     · have : s.callers[j]? = none := by simp; omega
       simp [snext, this]
 
-/-- From a stuck state, no non-empty sequence of internal labels is a run: the library's goroutines
-and the callers of `Close` stay where they are for ever. -/
-theorem stuck_forever (s : SSys) (h : s.stuck = true) (l : SLabel) (ls : List SLabel) (hl : l.internal = true) :
+/-- Every member of `schedLabels` is a label a scheduler may pick. -/
+theorem schedLabels_sched (s : SSys) (l : SLabel) (h : l ∈ s.schedLabels) : l.sched = true := by
+  simp only [SSys.schedLabels, List.mem_append, List.mem_flatMap, List.mem_range, List.mem_map, List.mem_cons,
+    List.mem_nil_iff, or_false] at h
+  rcases h with ((h | ⟨a, ha, rfl⟩) | ⟨j, _, h⟩) | ⟨j, _, a, ha, rfl⟩
+  · rcases h with rfl | rfl | rfl <;> rfl
+  · simp [schedActs] at ha; rcases ha with rfl | rfl | rfl | rfl | rfl <;> rfl
+  · rcases h with rfl | rfl <;> rfl
+  · simp [schedActs] at ha; rcases ha with rfl | rfl | rfl | rfl | rfl <;> rfl
+
+/-- From a state of rest, no non-empty sequence of scheduler labels is a run. -/
+theorem rest_forever (s : SSys) (h : s.quiescent = true) (l : SLabel) (ls : List SLabel) (hl : l.sched = true) :
     srun s (l :: ls) = none := by
-  simp [srun, stuck_internal s h l hl]
+  simp [srun, quiescent_sched s h l hl]
 
 theorem srun_append : ∀ (a b : List SLabel) (s s' : SSys), srun s a = some s' → srun s (a ++ b) = srun s' b
   | [], _, s, s', h => by simp [srun] at h; subst h; rfl
